@@ -43,6 +43,11 @@ RULE = ("matrices A = U diag(s) V^H, sizes 1..8 (real and complex), U/V seeded "
         "repeated / nearly repeated singular value or eigenvalue (relative gap "
         "< 1e-4); for the conversions: value != 1 (0 dB) and, for Eb/N0, bits "
         "per symbol >= 2.  distinct = SHA-1 of the case description")
+RULE += (" Added after the white-box review: "
+         "absolute scale classes (1e-30..1e16) also for the inverse "
+         "update, the selectors and gmd; diagonal updates down to "
+         "1e-12; real and complex bases mixed in the chordal distances ")
+
 LEVEL_TEXT = ("Generated-input search (Hypothesis, seeded, sharded) over real "
               "and complex matrices with controlled singular values against "
               "the defining algebraic identities of each kernel (projector "
